@@ -12,6 +12,11 @@ C("C04", "proof",
   "Trusted: Coq kernel, extraction (ExtrOcamlBasic), OCaml driver, the Symbols translator, the harness. Modelled rather than verified: tokens.py, the line-level classifiers. The role classifier enters only through the value-preserving-reclassification hypothesis, which the emit differential checks per file.",
   "Coq proof (unbounded) + regenerated tables + extracted-model differential", "5/C04")
 
+C("C11", "proof",
+  "The whole code-tag mechanism is modelled in Coq at string level (comment prefix test, ':' remark cut, whitespace split, the tag state machine with the next-line flag, the stamp-before/after-update order of set_code_tags, has_code_tag, the add_violation filter) and seven theorems are proved for all token lists: all_persists, named_persists, untagged_clean / no_tags_clean, next_line_scope, filter_exact, wrapped_file_silent. The extracted model is tied to /repo by comparing the tag list of every token of tagged corpus files with the model's stamps, and end to end by requiring report(tagged file) = model filter of report(same file with neutral comments); the wrapped-file clause is run through the CLI (empty report, --fix strips trailing whitespace only).",
+  "Trusted: Coq kernel, extraction, driver, harness (abstraction of a token to carriage-return / comment / other + value; mapping of a violation to its token positions). Modelled rather than verified: code_tags.py, set_code_tags, has_code_tag. Rules enter through their observed violations only.",
+  "Coq proof (unbounded) of the tag state machine + extracted-model differential + metamorphic report filter", "5/C11")
+
 NA_REASON = "check not built yet in this round (see DESIGN.md section 10 build order); nothing is claimed for it"
 ALL = ["C%02d" % i for i in range(1, 21)]
 m = dict(version=1, setup_cmd="./bin/setup",
